@@ -172,7 +172,14 @@ Definition spec (i : input) (o : observed) : bool :=
   end.
 
 (* ---- input guard -------------------------------------------------------- *)
-Definition client_ok (c : client) : bool := negb (String.eqb (c_id c) "").
+(* a registered client has an id, and one that authenticates with a secret has
+   a non-empty one *)
+Definition client_ok (c : client) : bool :=
+  negb (String.eqb (c_id c) "") &&
+  match c_auth c with
+  | ANone => true
+  | _ => negb (String.eqb (c_secret c) "")
+  end.
 
 Definition op_ok (o : op) : bool :=
   match o with
